@@ -1627,9 +1627,15 @@ class Interp:
         if isinstance(d, EnumV):
             adt = self.facts.adts.get(d.path)
 
+            if d.path == 'core::cmp::Ordering':
+                # Less = -1, Equal = 0, Greater = 1 (an i8; the arm values may be printed as their u8 bit pattern)
+                arms = [((a - 256) if a > 127 else a, b) for a, b in arms]
+
             def disc_of(vi):
                 if adt:
                     return int(adt['variants'][vi]['discr'])
+                if d.path == 'core::cmp::Ordering':
+                    return vi - 1
                 return vi
             if d.variant is not None:
                 dv = disc_of(d.variant)
@@ -2011,7 +2017,10 @@ class Interp:
             raise InterpError('closure body not in facts: %s' % closure.path)
         sub = Frame(fn, fn, {}, len(st.frames))
         cl_cell = st.new_cell(closure)
-        sub.locals[1] = st.new_cell(RefV(cl_cell, (), True))
+        loc = fn.get('locals') or []
+        by_ref = not (len(loc) > 1 and loc[1]['ty'].get('k') != 'ref')
+        # Fn / FnMut bodies take the environment by reference, FnOnce bodies (`bool::then(|| ..)`) by value
+        sub.locals[1] = st.new_cell(RefV(cl_cell, (), True)) if by_ref else cl_cell
         for i, a in enumerate(args):
             sub.locals[i + 2] = st.new_cell(a)
         return self._run_sync(st, sub)
